@@ -323,7 +323,10 @@ def c02stop(binary, out, signames):
         while time.monotonic() - t0 < 4.5:
             if not sent and time.monotonic() - t0 >= 1.6:
                 sent = True
-                if signame and p.poll() is None:
+                if signame == "DIE":
+                    # the polling thread dies on chronyd's next reply (reference time that is no time)
+                    chronyd.set_mode("badreftime")
+                elif signame and p.poll() is None:
                     p.send_signal(getattr(signal, signame))
             if p.poll() is not None and sent:
                 break
